@@ -221,6 +221,99 @@ def check_reuse(case, ctx):
                     "reuse/p2tr_script")
 
 
+# ------------------------------------------------------- node objects shared by trees
+
+SHARED_MODES = ["reshape", "reshape", "embed_left", "embed_right", "subset", "combine"]
+
+
+def shared_cases(tier):
+    step = st.tuples(st.integers(0, 50), st.integers(0, 50), st.booleans())
+    q = st.tuples(st.sampled_from(["A", "B"]), st.integers(0, 7),
+                  st.sampled_from(["control_block", "control_block", "path_hashes", "hash"]))
+    return st.fixed_dictionaries({
+        "secret": gen.secrets(),
+        "leaves": st.lists(st.tuples(st.sampled_from(LEAF_VERSIONS), leaf_scripts()), min_size=2, max_size=6),
+        "plan_a": st.lists(step, min_size=5, max_size=5),
+        "plan_b": st.lists(step, min_size=5, max_size=5),
+        "mode": st.sampled_from(SHARED_MODES),
+        "queries": st.lists(q, min_size=3, max_size=8),
+    })
+
+
+def _merge(nodes, plan):
+    """nodes: [(buidl node, reference node, [leaf ids left to right])]; merges pairs as the plan says"""
+    nodes = list(nodes)
+    for a, b, flip in plan:
+        if len(nodes) == 1:
+            break
+        x = nodes.pop(a % len(nodes))
+        y = nodes.pop(b % len(nodes))
+        if flip:
+            x, y = y, x
+        nodes.append((TapBranch(x[0], y[0]), [x[1], y[1]], x[2] + y[2]))
+    return nodes[0]
+
+
+def _balanced(nodes):
+    if len(nodes) == 1:
+        return nodes[0][1], nodes[0][2]
+    h = len(nodes) // 2
+    l, r = _balanced(nodes[:h]), _balanced(nodes[h:])
+    return [l[0], r[0]], l[1] + r[1]
+
+
+def check_shared(case, ctx):
+    """The SAME TapLeaf / TapBranch objects are built into two trees (a different shape, a larger tree that
+    embeds the first, a subset, TapBranch.combine); every tree keeps committing to exactly its own leaves:
+    control blocks, Merkle paths and roots equal the reference for THAT tree, whichever tree was built or
+    queried last."""
+    P = ec.mul(case["secret"])
+    internal = pt(P)
+    specs = [(v, toks(s) + [bytes([0xF0, i])]) for i, (v, s) in enumerate(case["leaves"])]
+    objs = [TapLeaf(Script(list(s)), v) for v, s in specs]
+    base = [(objs[i], (v, txser.script_bytes(s)), [i]) for i, (v, s) in enumerate(specs)]
+    mode = case["mode"]
+    if mode == "subset" and len(base) < 3:
+        mode = "reshape"
+    ctx.label("mode:" + mode)
+    ctx.nontrivial()
+    A = _merge(base, case["plan_a"])
+    if mode == "reshape":
+        B = _merge(base, case["plan_b"])
+    elif mode == "subset":
+        B = _merge(base[:-1], case["plan_b"])
+    elif mode == "combine":
+        order = sorted(range(len(base)), key=lambda i: (case["plan_b"][i % 5][0] + 7 * i) % 11)
+        nodes = [base[i] for i in order]
+        ref, ids = _balanced(nodes)
+        B = (TapBranch.combine([n[0] for n in nodes]), ref, ids)
+    else:
+        extra_spec = (0xC0, [0x51, bytes([0xF1, 0x77])])
+        extra = (TapLeaf(Script(list(extra_spec[1])), 0xC0), (0xC0, txser.script_bytes(extra_spec[1])), [len(objs)])
+        objs.append(extra[0])
+        if mode == "embed_left":
+            B = (TapBranch(A[0], extra[0]), [A[1], extra[1]], A[2] + extra[2])
+        else:
+            B = (TapBranch(extra[0], A[0]), [extra[1], A[1]], extra[2] + A[2])
+    trees = {"A": A, "B": B}
+    for which, i, what in case["queries"]:
+        bt, ref, ids = trees[which]
+        root, leaves = rt.tree_info(ref)
+        li = i % len(ids)
+        leaf_obj = objs[ids[li]]
+        ctx.label(f"query:{which}:{what}")
+        if what == "hash":
+            require(bt.hash() == root, f"shared/{mode}:hash:{which}")
+        elif what == "path_hashes":
+            got = bt.path_hashes(leaf_obj)
+            require(got is not None and b"".join(got) == leaves[li][1], f"shared/{mode}:path_hashes:{which}",
+                    f"leaf {li} of tree {which}")
+        else:
+            cb = bt.control_block(internal, leaf_obj)
+            require(cb is not None and cb.serialize() == rt.control_block(P, ref, li),
+                    f"shared/{mode}:control_block:{which}", f"leaf {li} of tree {which}")
+
+
 # ----------------------------------------------------------------------- tamper
 
 
@@ -333,4 +426,9 @@ SUBS = [
         required=["cb_positions", "script_positions", "cb_positions_with_ec_check", "path_len=0",
                   "path_len=2"],
         nontrivial_rule="tree with >= 2 leaves (every byte position of the control block and leaf script is altered)"),
+    Sub("shared_node_objects", check_shared, strategy=shared_cases, stateful=True,
+        budget={"quick": 600, "thorough": 20000},
+        required=["mode:" + m for m in set(SHARED_MODES)]
+        + ["query:A:control_block", "query:B:control_block", "query:A:path_hashes"],
+        nontrivial_rule="every case: two trees over the same node objects, queried in generated order"),
 ]
